@@ -1303,6 +1303,9 @@ class ABCPropertyGraph(ABCPropertyGraphConstants):
                 msg=f'Network service name {network_service.resource_name} must be unique.',
                 graph_id=self.graph_id, node_id=parent_node_id)
 
+        if parent_node_id is not None:
+            # same for the owner of a network service
+            self.get_node_properties(node_id=parent_node_id)
         props = self.network_service_sliver_to_graph_properties_dict(network_service)
         self.add_node(node_id=network_service.node_id, label=ABCPropertyGraph.CLASS_NetworkService, props=props)
         if parent_node_id is not None:
@@ -1326,6 +1329,10 @@ class ABCPropertyGraph(ABCPropertyGraphConstants):
         """
         assert interface.node_id is not None
 
+        if parent_node_id is not None:
+            # the parent must be in the graph before the ConnectionPoint is added (e.g. the stale handle of a
+            # removed network service): otherwise the node would stay behind without its parent
+            self.get_node_properties(node_id=parent_node_id)
         props = self.interface_sliver_to_graph_properties_dict(interface)
         self.add_node(node_id=interface.node_id, label=ABCPropertyGraph.CLASS_ConnectionPoint, props=props)
         if parent_node_id is not None:
